@@ -414,6 +414,121 @@ impl core::ops::Not for Choice {
     fn not(self) -> (r: Choice) ensures r.b == !self.b { Choice { b: !self.b } }
 }
 
+// ---------------------------------------------------------------------------------- elliptic-curve 0.13 (only what src/key_exchange/group/elliptic_curve.rs calls)
+pub mod subtle { pub use super::Choice; }
+pub mod elliptic_curve {
+    use super::*;
+    use vstd::std_specs::ops::MulSpec;
+    verus! {
+    pub struct Error;
+    /// `<FieldBytesSize<G> as ModulusSize>::CompressedPointSize`
+    pub trait ModulusSize { type CompressedPointSize: ArrayLength<u8>; }
+    #[verifier::external_body]
+    #[verifier::reject_recursive_types(G)]
+    pub struct EncodedPoint<G> { _p: PhantomData<G> }
+    impl<G> EncodedPoint<G> {
+        pub uninterp spec fn bytes(&self) -> Seq<u8>;
+        #[verifier::external_body]
+        pub fn as_bytes(&self) -> (r: &[u8]) ensures r@ == self.bytes() { unimplemented!() }
+    }
+    pub trait ToEncodedPoint<G>: Sized {
+        /// SEC1 encoding of a point (compressed: tag 02/03 || x)
+        spec fn sec1(&self, compress: bool) -> Seq<u8>;
+        fn to_encoded_point(&self, compress: bool) -> (r: EncodedPoint<G>) ensures r.bytes() == self.sec1(compress);
+    }
+    pub trait Group: Sized {
+        spec fn gen() -> Self;
+        fn generator() -> (r: Self) ensures r == Self::gen();
+    }
+    pub trait Field: Sized {
+        spec fn zero(&self) -> bool;
+        fn is_zero(&self) -> (r: Choice) ensures r.b == self.zero();
+    }
+    pub struct ExpandMsgXmd<H> { _p: PhantomData<H> }
+    /// stands for `G: GroupDigest` together with the other where-clauses of the blanket impl (rule R2 strips those)
+    pub trait GroupDigest: Sized {
+        type Pt: Copy + core::ops::Mul<Self::Sc, Output = Self::Pt> + ToEncodedPoint<Self> + Group;
+        type Sc: Copy + Field + core::convert::Into<GenericArray<u8, Self::FieldLen>>;
+        type FieldLen: ArrayLength<u8> + ModulusSize;
+        /// scalar multiplication (the `*` of the point type)
+        spec fn smul(p: Self::Pt, s: Self::Sc) -> Self::Pt;
+        /// big-endian encoding of a scalar (`Into<FieldBytes>`)
+        spec fn sc_bytes(s: Self::Sc) -> Seq<u8>;
+        /// what `PublicKey::from_sec1_bytes` accepts (any SEC1 form of a non-identity point on the curve)
+        spec fn from_sec1(b: Seq<u8>) -> Option<Self::Pt>;
+        /// what `SecretKey::from_slice` accepts (a non-zero scalar below the order; shorter inputs are zero-padded!)
+        spec fn from_slice(b: Seq<u8>) -> Option<Self::Sc>;
+        spec fn h2s_xmd<X>(input: Seq<u8>, dst: Seq<u8>) -> Option<Self::Sc>;
+        fn hash_to_scalar<X>(input: Chunks<'_>, dst: Chunks<'_>) -> (r: Result<Self::Sc, Error>)
+            ensures r is Ok <==> Self::h2s_xmd::<X>(input.flat(), dst.flat()) is Some,
+                    r is Ok ==> Some(r->Ok_0) == Self::h2s_xmd::<X>(input.flat(), dst.flat());
+
+        /// [assumed] the operators and conversions of the point / scalar types compute the spec functions above
+        proof fn lemma_ops()
+            ensures
+                <Self::Pt as MulSpec<Self::Sc>>::obeys_mul_spec(),
+                forall|p: Self::Pt, s: Self::Sc| #[trigger] <Self::Pt as MulSpec<Self::Sc>>::mul_req(p, s),
+                forall|p: Self::Pt, s: Self::Sc| #[trigger] <Self::Pt as MulSpec<Self::Sc>>::mul_spec(p, s) == Self::smul(p, s),
+                forall|s: Self::Sc, r: GenericArray<u8, Self::FieldLen>| #[trigger] call_ensures(<Self::Sc as core::convert::Into<GenericArray<u8, Self::FieldLen>>>::into, (s,), r) ==> r@ == Self::sc_bytes(s);
+        /// [assumed] lengths: compressed SEC1 = CompressedPointSize, scalars = FieldBytesSize, both 1..=255
+        proof fn lemma_lens(p: Self::Pt, s: Self::Sc)
+            ensures
+                p.sec1(true).len() == <Self::FieldLen as ModulusSize>::CompressedPointSize::n(),
+                Self::sc_bytes(s).len() == Self::FieldLen::n(),
+                wf_len::<<Self::FieldLen as ModulusSize>::CompressedPointSize>(), wf_len::<Self::FieldLen>(),
+                0 < <Self::FieldLen as ModulusSize>::CompressedPointSize::n() <= 255, 0 < Self::FieldLen::n() <= 255;
+        /// [assumed] group law: (g * a) * b == (g * b) * a
+        proof fn lemma_smul_comm(a: Self::Sc, b: Self::Sc)
+            ensures Self::smul(Self::smul(Self::Pt::gen(), a), b) == Self::smul(Self::smul(Self::Pt::gen(), b), a);
+        /// [assumed] `SecretKey` holds a NonZeroScalar; the compressed encoding of g * s (s != 0) decodes to the same point; scalars round-trip
+        proof fn lemma_codecs(b: Seq<u8>, s: Self::Sc)
+            ensures
+                Self::from_slice(b) is Some ==> !Self::from_slice(b)->0.zero(),
+                !s.zero() ==> Self::from_slice(Self::sc_bytes(s)) == Some(s),
+                !s.zero() ==> Self::from_sec1(Self::smul(Self::Pt::gen(), s).sec1(true)) == Some(Self::smul(Self::Pt::gen(), s));
+    }
+    pub type ProjectivePoint<G> = <G as GroupDigest>::Pt;
+    pub type Scalar<G> = <G as GroupDigest>::Sc;
+    pub type FieldBytesSize<G> = <G as GroupDigest>::FieldLen;
+
+    #[verifier::external_body]
+    #[verifier::reject_recursive_types(G)]
+    pub struct PublicKey<G: GroupDigest> { _p: PhantomData<G> }
+    impl<G: GroupDigest> PublicKey<G> {
+        pub uninterp spec fn pt(&self) -> G::Pt;
+        #[verifier::external_body]
+        pub fn from_sec1_bytes(bytes: &[u8]) -> (r: Result<Self, Error>)
+            ensures r is Ok <==> G::from_sec1(bytes@) is Some, r is Ok ==> Some(r->Ok_0.pt()) == G::from_sec1(bytes@)
+        { unimplemented!() }
+        #[verifier::external_body]
+        pub fn to_projective(&self) -> (r: G::Pt) ensures r == self.pt() { unimplemented!() }
+    }
+    #[verifier::external_body]
+    #[verifier::reject_recursive_types(G)]
+    pub struct NonZeroScalar<G: GroupDigest> { _p: PhantomData<G> }
+    impl<G: GroupDigest> NonZeroScalar<G> { pub uninterp spec fn sc(&self) -> G::Sc; }
+    impl<G: GroupDigest> core::ops::Deref for NonZeroScalar<G> {
+        type Target = G::Sc;
+        #[verifier::external_body]
+        fn deref(&self) -> (r: &G::Sc) ensures *r == self.sc() { unimplemented!() }
+    }
+    #[verifier::external_body]
+    #[verifier::reject_recursive_types(G)]
+    pub struct SecretKey<G: GroupDigest> { _p: PhantomData<G> }
+    impl<G: GroupDigest> SecretKey<G> {
+        pub uninterp spec fn sc(&self) -> G::Sc;
+        #[verifier::external_body]
+        pub fn from_slice(bytes: &[u8]) -> (r: Result<Self, Error>)
+            ensures r is Ok <==> G::from_slice(bytes@) is Some, r is Ok ==> Some(r->Ok_0.sc()) == G::from_slice(bytes@)
+        { unimplemented!() }
+        #[verifier::external_body]
+        pub fn random<R: RngCore + CryptoRng>(rng: &mut R) -> (r: Self) { unimplemented!() }
+        #[verifier::external_body]
+        pub fn to_nonzero_scalar(&self) -> (r: NonZeroScalar<G>) ensures r.sc() == self.sc() { unimplemented!() }
+    }
+    }
+}
+
 // ---------------------------------------------------------------------------------- argon2 0.5 (only what src/ksf.rs calls)
 pub mod argon2 {
     use super::*;
@@ -703,6 +818,8 @@ pub trait KeGroup: Sized {
             r is Ok <==> Self::de_pk(bytes@) is Some,
             r is Ok ==> Some(r->Ok_0) == Self::de_pk(bytes@),
             r is Err ==> r->Err_0 == InternalError::<Infallible>::PointError;
+    /// (not called by the extracted code: key generation goes through derive_auth_keypair; present so that impls can be checked)
+    fn random_sk<R: RngCore + CryptoRng>(rng: &mut R) -> (r: Self::Sk);
     fn hash_to_scalar<H>(input: Chunks<'_>, dst: Chunks<'_>) -> (r: Result<Self::Sk, InternalError>)
         ensures r == Self::h2s::<H>(input.flat(), dst.flat());
     fn derive_auth_keypair<CS: voprf::CipherSuite>(seed: GenericArray<u8, Self::SkLen>) -> (r: Result<Self::Sk, InternalError>)
@@ -726,7 +843,7 @@ pub trait KeGroup: Sized {
     proof fn lemma_de_pk_canonical(b: Seq<u8>)
         ensures Self::de_pk(b) is Some ==> b.len() == Self::PkLen::n() && Self::ser_pk(Self::de_pk(b)->0) == b;
     proof fn lemma_de_sk_canonical(b: Seq<u8>)
-        ensures Self::de_sk(b) is Some ==> !Self::sk_is_zero(Self::de_sk(b)->0) && (b.len() == Self::SkLen::n() ==> Self::ser_sk(Self::de_sk(b)->0) == b);
+        ensures Self::de_sk(b) is Some ==> !Self::sk_is_zero(Self::de_sk(b)->0) && b.len() == Self::SkLen::n() && Self::ser_sk(Self::de_sk(b)->0) == b;
     /// [Kani / assumed] encoders round-trip on valid values
     proof fn lemma_sk_roundtrip(sk: Self::Sk) requires !Self::sk_is_zero(sk) ensures Self::de_sk(Self::ser_sk(sk)) == Some(sk);
     proof fn lemma_pk_roundtrip(sk: Self::Sk) requires !Self::sk_is_zero(sk) ensures Self::de_pk(Self::ser_pk(Self::pk_of(sk))) == Some(Self::pk_of(sk));
